@@ -248,9 +248,13 @@ class ManualExecutor(Executor):
         self.lock = instr._RealLock()
         self.auto = auto  # callable(item_index) -> None executed at submit (e.g. run inline)
         self.refuse_after_shutdown = True
+        self.refuse = False  # a delegate that rejects hand-overs (closed / bounded)
 
     def submit(self, fn, *args, **kwargs):
         with self.lock:
+            if self.refuse:
+                LOG.add("me.submit.refused", ex=self.name)
+                raise RuntimeError("cannot schedule new futures after shutdown")
             if self.is_shutdown and self.refuse_after_shutdown:
                 LOG.add("me.submit.refused", ex=self.name)
                 raise RuntimeError("cannot schedule new futures after shutdown")
@@ -649,6 +653,9 @@ class Sweep(object):
             acts = [x for x in (v, iact) if x is not None]
             if ok:
                 ok = self._drive(acts, ctx, info)
+            if ok and not LM.deadlocks and instr.MODE[0] == "vt":
+                # library threads released from their suspension point run on until they park
+                instr.settle()
             if ok and not LM.deadlocks:
                 scn.finish(ctx)
             info["victim"] = v
@@ -811,8 +818,9 @@ class SweepNested(object):
     ``scn`` provides setup(), role_a(ctx), start_a(ctx) -> Actor, intervene1(ctx),
     finish(ctx), oracle(ctx, res, info)."""
 
-    def __init__(self, scn, res, mode, name):
+    def __init__(self, scn, res, mode, name, gran="line"):
         self.scn, self.res, self.mode, self.name = scn, res, mode, name
+        self.gran = gran
         self.hit2 = 0
 
     def run_one(self, i, j):
@@ -822,8 +830,11 @@ class SweepNested(object):
         info = {"pos": (i, j), "site": None, "site2": None, "hit": False, "hit2": False}
         try:
             ra = scn.role_a(ctx)
+            # the second suspended role is the intervention actor itself, or (role_x) a library thread it wakes
+            rx = scn.role_x(ctx) if hasattr(scn, "role_x") else "I1"
+            TR.set_granularity(getattr(self, "gran", "line"))
             arm_a = TR.arm(ra, pause_k=i, record=(i is None))
-            arm_x = TR.arm("I1", pause_k=j, record=(j is None))
+            arm_x = TR.arm(rx, pause_k=j, record=(j is None))
             v = scn.start_a(ctx)
             acts = [v]
             if i is not None:
@@ -841,12 +852,18 @@ class SweepNested(object):
                     instr.settle()
             i1 = ctx.actor("I1", scn.intervene1, ctx).go()
             acts.append(i1)
-            if j is not None:
+            if j is not None and rx != "I1":
+                why = instr.wait_paused_or(arm_x, lambda: (i1.finished or instr.thread_state(i1) in ("blocked", "parked")) and instr.quiescent())
+                info["hit2"] = why == "paused"
+                info["site2"] = arm_x.site
+            elif j is not None:
                 why = instr.wait_paused_or(arm_x, lambda: i1.finished or instr.thread_state(i1) in ("blocked", "parked"))
                 info["hit2"] = why == "paused"
                 info["site2"] = arm_x.site
             else:
                 wait_done_or_blocked(i1)
+                if rx != "I1" and instr.MODE[0] == "vt":
+                    instr.settle()
             # release A first and let it run as far as it can
             TR.release(arm_a)
             TR.disarm(ra)
